@@ -35,6 +35,19 @@ TAGS = {
     "size > MAX_TX_SIZE": "size_limit",
 }
 
+_RULE_TAG = None
+
+
+def canon(op: str, out: str) -> str:
+    """the property says WHETHER check() rejects, not with which message or for which of several defects: rule tags (and
+    the tag for a message the table above does not know) are compared as `rejected`"""
+    global _RULE_TAG
+    if _RULE_TAG is None:
+        import re
+        _RULE_TAG = re.compile(r"\b(%s|unknown_message)\b" % "|".join(sorted(TAGS.values())))
+    return _RULE_TAG.sub("rejected", out)
+
+
 # the property's constants, written down independently of the code
 COIN = 10 ** 8
 REF_MAX_MONEY = {"btc": 21_000_000 * COIN, "ltc": 21_000_000 * COIN, "bch": 21_000_000 * COIN, "btg": 21_000_000 * COIN,
